@@ -23,6 +23,7 @@ def run(repo, report, tier):
     report.rule("C09.R6", "a read counts as trimmed (with_adapters, info.matches) iff the applied match list is non-empty",
                 "reads count as trimmed although a required linked part was missing")
     report.guard("C09.R1", "MultipleAdapters.match_to", r1_best, repo, report)
+    report.guard("C09.R1", "adapter cutters of the two reads", r1_sibling_cutters, repo, report)
     report.guard("C09.R2", "AdapterCutter.match_and_trim", r2_rounds, repo, report)
     report.guard("C09.R4", "LinkedAdapter.match_to", r4_linked, repo, report)
     report.guard("C09.R4", "LinkedMatch score and errors", r4_linked_totals, repo, report)
@@ -443,3 +444,25 @@ def r4_linked_totals(repo, report):
                 bad.append(({"front found": not f, "back found": not b}, got, want.key()))
         report.ob("C09.R4", f"LinkedMatch.{prop_name}", not bad and len(rows) == 4, facts={"paths": len(rows), "problems": [str(x)[:200] for x in bad[:2]]},
                   expected=f"sum of the {prop_name} of the parts that were found", loc=repo.loc(fn), cases=len(rows), why=str(bad[0])[:200] if bad else "")
+
+
+def r1_sibling_cutters(repo, report):
+    """The R1 and the R2 adapter cutter are configured alike (rounds, action, index switch): every AdapterCutter(...) term
+    of the builder model has the same arguments after its adapter list."""
+    import re as _re
+
+    from . import builder_rules
+
+    terms = set()
+    for paired in (False, True):
+        mdl = builder_rules.model(repo, paired)
+        for bi, ri, pos, val, sl in mdl.slots("modifiers"):
+            for mm in _re.finditer(r"(?<![A-Za-z])AdapterCutter\((adapters2?)((?:, [^()]*)?)\)", sl.key):
+                terms.add((mm.group(1), mm.group(2)))
+    tails = {t for _, t in terms}
+    c, init = repo.need_method("AdapterCutter", "__init__")
+    np_ = len(params(init)) - 2
+    ok = len(tails) == 1 and {a for a, _ in terms} == {"adapters", "adapters2"} and next(iter(tails)).count(",") == np_
+    report.ob("C09.R1", "R1 and R2 adapter cutters get the same configuration", ok, facts={"terms": sorted(f"AdapterCutter({a}{t})" for a, t in terms)},
+              expected=f"AdapterCutter(adapters, times, action, index) and AdapterCutter(adapters2, <the same {np_} arguments>)", loc="src/cutadapt/cli.py",
+              why="" if ok else "one read's cutter falls back to a default (e.g. index=True under --no-index): ties between adapters are then resolved differently for R1 and R2")
